@@ -54,7 +54,32 @@
    while publications are still in flight (the store only refuses while one is
    PENDING), so two writes can be in flight and land in either order; a write
    that lands after a newer one is superseded (its file is removed again), a
-   restart always loads the highest id present.                              *)
+   restart always loads the highest id present.
+
+   SURVIVORS (Survive = TRUE). What the real system does after a Kill: only the
+   killed workers are replaced; the others keep their Operator / SourceRunner
+   objects and are deployed again in place by the job when it re-assembles (the
+   first N registered operators in id order: a survivor may move to another
+   position, i.e. another key-group range). BY DESIGN a redeployed node keeps
+   nothing but its identity - keyed state, cursors, barriers, batches, queued
+   output all start over from the checkpoint - so the survivors flavour of
+   Restart is the same Reset, with these differences:
+     * a job that was not killed survives: its checkpoint id counter goes on and
+       it deploys from the checkpoint it holds; the previous assembly's pending
+       checkpoint AND its complete checkpoints whose snapshot is still being
+       written are given up (snapshots.Store.DiscardPendingCheckpoint): a
+       checkpoint that appeared after the re-assembly would not be an ancestor of
+       the new assembly's state, yet be what the next recovery loads.
+       Dev_LatePublication = TRUE is the code as it is: only the pending one is
+       discarded, writes in flight land after the re-assembly. In this model that
+       is harmless (the checkpoint is a consistent cut); in the real system the
+       files it names are no longer protected by anybody (known finding);
+     * HandleEventBatch calls of the old assembly that are still in flight to an
+       operator that survives (slot, not yet inside) become LATE messages: they
+       may be delivered to the redeployed survivor at any later moment
+       (LateDeliver) and must have NO effect. Calls to killed nodes hang.
+   Which identity sits at which position is the replayer's business (it knows the
+   ids); the model's positions 1..nw are those of the current assembly.       *)
 EXTENDS Integers, Sequences, FiniteSets, TLC, Json
 
 CONSTANTS W,          \* workers (the largest count when the job is rescaled at recovery)
@@ -62,6 +87,8 @@ CONSTANTS W,          \* workers (the largest count when the job is rescaled at 
           G,          \* key groups (0 = legacy: owners given by OwnerDigits, Counts = {W})
           GroupDigits,\* G > 0: decimal digits, one per key: the key group (1..G) of key k
           Overlap,    \* may a checkpoint be created while a publication is in flight
+          Survive,    \* Restart is the SURVIVORS flavour (see below) instead of "everything fresh"
+          Dev_LatePublication, \* survivors: the code as it is - a surviving job does NOT give up the previous assembly's snapshot writes
           NSplits,    \* splits 1..NSplits; split s is read by runner ((s-1) % nw)+1
           NRecs,      \* records per split
           KeyDigits,  \* decimal digits, one per record (split 1 first): the key (1..9) of every record,
@@ -146,10 +173,12 @@ VARIABLES nw,        \* worker count of the running generation (nodes 1..nw exis
           startq,    \* startq[r]: StartCheckpoint(n) in flight to runner r (0 = none)
           srack,     \* srack[r]: SourceRunnerCheckpointComplete in flight [n, cur] or None
           ckptId, pending, pubs, completed,  \* job coordinator / storage (pubs: writes in flight)
-          nck, nkills, clean, lostOps, hist
+          nck, nkills, clean, lostOps, hist,
+          late,      \* survivors: calls of earlier assemblies still in flight to an operator identity that is alive
+          epoch      \* restarts so far (names the assembly a late message comes from); neither is part of the VIEW
 
 vars == <<nw, dead, cursor, out, slot, inside, pend, st, bar, opack, startq, srack,
-          ckptId, pending, pubs, completed, nck, nkills, clean, lostOps, hist>>
+          ckptId, pending, pubs, completed, nck, nkills, clean, lostOps, hist, late, epoch>>
 view == <<nw, dead, cursor, out, slot, inside, pend, st, bar, opack, startq, srack,
           ckptId, pending, pubs, completed, nck, nkills, clean, lostOps>>
 
@@ -173,6 +202,7 @@ Init == /\ nw \in Counts
         /\ opack = [o \in Workers |-> None] /\ startq = [r \in Workers |-> 0] /\ srack = [r \in Workers |-> None]
         /\ pending = NoCkpt /\ pubs = {}
         /\ ckptId = 0 /\ completed = NoCkpt /\ nck = 0 /\ nkills = 0 /\ clean = TRUE /\ lostOps = {} /\ hist = <<>>
+        /\ late = {} /\ epoch = 0
 
 \* a new generation: fresh job + n fresh workers over cursors curs and operator states sts
 Reset(n, curs, sts) ==
@@ -181,7 +211,10 @@ Reset(n, curs, sts) ==
   /\ inside' = [r \in Workers |-> [o \in Workers |-> FALSE]]
   /\ pend' = [o \in Workers |-> <<>>] /\ st' = sts /\ bar' = [o \in Workers |-> {}]
   /\ opack' = [o \in Workers |-> None] /\ startq' = [r \in Workers |-> 0] /\ srack' = [r \in Workers |-> None]
-  /\ pending' = NoCkpt /\ pubs' = {}
+  /\ pending' = NoCkpt
+  \* a surviving job gives up the previous assembly's checkpoints: the pending one and (intended design) the
+  \* complete ones still being written; Dev_LatePublication: those writes still land (Publish after the Restart)
+  /\ pubs' = IF Survive /\ 0 \notin dead /\ Dev_LatePublication THEN pubs ELSE {}
 
 \* the history is only kept when generating behaviours (values that never reach the VIEW stay
 \* un-normalised and TLC cannot spill them to its disk queue)
@@ -207,14 +240,14 @@ Read(r, s) ==
      IN /\ cursor' = [cursor EXCEPT ![s] = @ + 1]
         /\ out' = [out EXCEPT ![r] = z[1]] /\ slot' = sl
         /\ Log([a |-> "Read", r |-> r, s |-> s, i |-> e[2], arr |-> Arrivals(sl)])
-  /\ UNCHANGED <<nw, dead, inside, pend, st, bar, opack, startq, srack, ckptId, pending, pubs, completed, nck, nkills, clean, lostOps>>
+  /\ UNCHANGED <<late, epoch, nw, dead, inside, pend, st, bar, opack, startq, srack, ckptId, pending, pubs, completed, nck, nkills, clean, lostOps>>
 
 SrStart(r) ==
   /\ r \notin dead /\ startq[r] # 0 /\ srack[r] = None
   /\ srack' = [srack EXCEPT ![r] = [n |-> startq[r], cur |-> [s \in SplitsOf(r) |-> cursor[s]]]]
   /\ startq' = [startq EXCEPT ![r] = 0]
   /\ Log([a |-> "SrStart", r |-> r, n |-> startq[r], cur |-> [s \in Splits |-> IF s \in SplitsOf(r) THEN cursor[s] ELSE -1]])
-  /\ UNCHANGED <<nw, dead, cursor, out, slot, inside, pend, st, bar, opack, ckptId, pending, pubs, completed, nck, nkills, clean, lostOps>>
+  /\ UNCHANGED <<late, epoch, nw, dead, cursor, out, slot, inside, pend, st, bar, opack, ckptId, pending, pubs, completed, nck, nkills, clean, lostOps>>
 
 Complete(p) == p.sr = Live /\ Len(p.ops) = nw
 
@@ -229,7 +262,7 @@ JobSrAck(r) ==
         /\ out' = [out EXCEPT ![r] = z[1]] /\ slot' = sl
         /\ Log([a |-> "JobSrAck", r |-> r, n |-> srack[r].n, arr |-> Arrivals(sl), done |-> Complete(p)])
   /\ srack' = [srack EXCEPT ![r] = None]
-  /\ UNCHANGED <<nw, dead, cursor, inside, pend, st, bar, opack, startq, ckptId, completed, nck, nkills, clean, lostOps>>
+  /\ UNCHANGED <<late, epoch, nw, dead, cursor, inside, pend, st, bar, opack, startq, ckptId, completed, nck, nkills, clean, lostOps>>
 
 \* ---- operator ------------------------------------------------------------
 \* add events q to operator o's batch starting from <<pend, state>>; process whenever the batch is full
@@ -284,7 +317,7 @@ Deliver(r, o) ==
              /\ inside' = [inside EXCEPT ![r][o] = TRUE]
              /\ Log([a |-> "Deliver", r |-> r, o |-> o, k |-> "bar", n |-> m.n, res |-> "snapshot", giv |-> giv, arr |-> {}])
              /\ UNCHANGED <<out, slot>>
-  /\ UNCHANGED <<nw, dead, cursor, startq, srack, ckptId, pending, pubs, completed, nck, nkills, lostOps>>
+  /\ UNCHANGED <<late, epoch, nw, dead, cursor, startq, srack, ckptId, pending, pubs, completed, nck, nkills, lostOps>>
 
 TimerFire(o) ==
   /\ B > 1 /\ o \notin dead /\ pend[o] # <<>> /\ opack[o] = None
@@ -292,7 +325,7 @@ TimerFire(o) ==
      /\ st' = [st EXCEPT ![o] = ApplySeq(@, pend[o])] /\ pend' = [pend EXCEPT ![o] = <<>>]
      /\ clean' = (clean /\ AllClean(giv))
      /\ Log([a |-> "TimerFire", o |-> o, giv |-> giv])
-  /\ UNCHANGED <<nw, dead, cursor, out, slot, inside, bar, opack, startq, srack, ckptId, pending, pubs, completed, nck, nkills, lostOps>>
+  /\ UNCHANGED <<late, epoch, nw, dead, cursor, out, slot, inside, bar, opack, startq, srack, ckptId, pending, pubs, completed, nck, nkills, lostOps>>
 
 \* parked events of operator o, in runner order
 RECURSIVE ParkedEvs(_, _)
@@ -319,7 +352,7 @@ JobOpAck(o) ==
                 /\ clean' = (clean /\ AllClean(f.giv))
                 /\ out' = [r \in Workers |-> z[r][1]] /\ slot' = sl
                 /\ Log([a |-> "JobOpAck", o |-> o, n |-> opack[o].n, giv |-> f.giv, arr |-> Arrivals(sl), done |-> Complete(p), resumed |-> TRUE])
-  /\ UNCHANGED <<nw, dead, cursor, startq, srack, ckptId, completed, nck, nkills, lostOps>>
+  /\ UNCHANGED <<late, epoch, nw, dead, cursor, startq, srack, ckptId, completed, nck, nkills, lostOps>>
 
 \* ---- job ------------------------------------------------------------------
 Tick ==
@@ -329,7 +362,7 @@ Tick ==
   /\ pending' = [NoCkpt EXCEPT !.n = ckptId + 1, !.w = nw]
   /\ startq' = [r \in Workers |-> IF r \in Live THEN ckptId + 1 ELSE 0]
   /\ Log([a |-> "Tick", n |-> ckptId + 1, inflight |-> {q.n : q \in pubs}])
-  /\ UNCHANGED <<nw, dead, cursor, out, slot, inside, pend, st, bar, opack, srack, pubs, completed, nkills, clean, lostOps>>
+  /\ UNCHANGED <<late, epoch, nw, dead, cursor, out, slot, inside, pend, st, bar, opack, srack, pubs, completed, nkills, clean, lostOps>>
 
 \* the write of p lands; a write that lands after a newer one is superseded (the file is removed again,
 \* nothing ever refers to it): storage keeps the highest id
@@ -339,7 +372,7 @@ Publish(p) ==
   /\ pubs' = pubs \ {p}
   /\ Log([a |-> "Publish", n |-> p.n, cur |-> p.cur, ops |-> p.ops, sup |-> p.n < completed.n,
           snaps |-> [o \in Workers |-> [cnt |-> {e \in Ev : p.snaps[o].cnt[e] > 0}]]])
-  /\ UNCHANGED <<nw, dead, cursor, out, slot, inside, pend, st, bar, opack, startq, srack, ckptId, pending, nck, nkills, clean, lostOps>>
+  /\ UNCHANGED <<late, epoch, nw, dead, cursor, out, slot, inside, pend, st, bar, opack, startq, srack, ckptId, pending, nck, nkills, clean, lostOps>>
 
 \* ---- faults ---------------------------------------------------------------
 Kill(S) ==
@@ -349,7 +382,7 @@ Kill(S) ==
   /\ IF 0 \in S THEN pending' = NoCkpt /\ pubs' = {} /\ startq' = [r \in Workers |-> 0]
      ELSE UNCHANGED <<pending, pubs>> /\ startq' = [r \in Workers |-> IF r \in S THEN 0 ELSE startq[r]]
   /\ Log([a |-> "Kill", nodes |-> {x \in Nodes : x \in S}])
-  /\ UNCHANGED <<nw, cursor, slot, inside, pend, st, bar, opack, srack, ckptId, completed, nck, clean, lostOps>>
+  /\ UNCHANGED <<late, epoch, nw, cursor, slot, inside, pend, st, bar, opack, srack, ckptId, completed, nck, clean, lostOps>>
 
 \* partitioning.AssignRanges with operator ranges abstracted to their index:
 \* to = <<1..W>>, from = completed.ops (ack order). Sweep(t, f) -> sequence of sets of positions in from
@@ -378,11 +411,26 @@ Restart(n) ==
   /\ dead # {} /\ n \in Counts
   /\ LET sts  == [o \in Workers |-> Restored(completed, n, o)]
          lost == {o \in 1..n : completed.n # 0 /\ sts[o] # CutStAt(n, o, completed.cur)}
+         \* survivors: calls of this assembly at the gate of an operator that stays alive
+         nl   == IF ~Survive \/ ~StopAtDone THEN {}     \* (generation only: late messages never influence the state graph)
+                 ELSE {[g |-> epoch, r |-> p[1], o |-> p[2], k |-> slot[p[1]][p[2]].k, s |-> slot[p[1]][p[2]].s,
+                        i |-> slot[p[1]][p[2]].i, n |-> slot[p[1]][p[2]].n] :
+                         p \in {q \in Workers \X Workers : slot[q[1]][q[2]] # NoMsg /\ ~inside[q[1]][q[2]] /\ q[2] \notin dead}}
      IN /\ Reset(n, completed.cur, sts)
         /\ lostOps' = {o \in Workers : o \in lostOps \/ o \in lost}
-        /\ Log([a |-> "Restart", n |-> completed.n, w |-> n, cur |-> completed.cur, lost |-> lost])
-  /\ ckptId' = completed.n
+        /\ late' = late \cup nl /\ epoch' = epoch + 1
+        /\ Log([a |-> "Restart", n |-> completed.n, w |-> n, cur |-> completed.cur, lost |-> lost,
+                surv |-> Survive, killed |-> dead, g |-> epoch, late |-> nl])
+  /\ (Survive => n = nw)                                         \* the worker count belongs to the job's configuration
+  /\ ckptId' = IF Survive /\ 0 \notin dead THEN ckptId ELSE completed.n
   /\ UNCHANGED <<completed, nck, nkills, clean>>
+
+\* a call of an earlier assembly reaches the (redeployed) operator it was sent to: no effect by design
+LateDeliver(m) ==
+  /\ m \in late /\ late' = late \ {m}
+  /\ Log([a |-> "LateDeliver", g |-> m.g, r |-> m.r, o |-> m.o, k |-> m.k, s |-> m.s, i |-> m.i, n |-> m.n])
+  /\ UNCHANGED <<epoch, nw, dead, cursor, out, slot, inside, pend, st, bar, opack, startq, srack,
+                 ckptId, pending, pubs, completed, nck, nkills, clean, lostOps>>
 
 
 \* ---- termination ----------------------------------------------------------
@@ -409,6 +457,7 @@ RestartRescaled(n)   == En /\ ~StopAtDone /\ n # nw /\ Restart(n)   \* rescale a
 GenRestart           == En /\ StopAtDone /\ Restart(RandomElement(Counts))
 \* generation with diluted publications: a step that changes nothing (and logs nothing) keeps the
 \* simulator from stopping a behaviour in which the only thing left to do is a write it chose not to perform
+GenLate              == En /\ StopAtDone /\ \E m \in late : LateDeliver(m)      \* (no effect: only generated, never part of the state graph)
 GenIdle              == En /\ StopAtDone /\ PubDilution > 1 /\ pubs # {} /\ UNCHANGED vars
 
 \* everything else: runner / operator / ack steps and Kill
@@ -424,7 +473,7 @@ Others ==
 
 Next ==
   \/ Others
-  \/ TickIdle \/ TickOverlap \/ GenRestart \/ GenIdle
+  \/ TickIdle \/ TickOverlap \/ GenRestart \/ GenIdle \/ GenLate
   \/ \E i \in 1..MaxCkpt : PublishNewest(i) \/ PublishSuperseded(i)     \* ids never exceed the number of checkpoints created
   \/ \E n \in Counts : RestartSame(n) \/ RestartRescaled(n)
 
